@@ -187,7 +187,7 @@ TABLE['C19'] = {
 }
 
 TABLE['C08'] = {
-    'modules': ['contracts.regen', 'contracts.scripts', 'contracts.regencheck'],
+    'modules': ['contracts.regen', 'contracts.scripts', 'contracts.regencheck', 'contracts.env'],
     'level': 'other',
     'explanation': 'history property (edits interleaved with regenerations): outside one-call contracts. What is decided: (proof) the skip decision of find_check_cache, for any number of regeneration inputs/outputs and arbitrary cached find results, over an abstract file system: skipped only if the cache is not newer than the build file, no input is newer than any output and every cached result (found and extra) equals the fresh search; fresh results and searched directories are recorded for every cached filter; (proof) BasePath.to_json encodes the directory flag as a trailing separator (the only way from_json can recover it); (bounded, real code) to_json/from_json of PathGlob, NameGlob, FileFilter, FindCache (kinds preserved), RegenerateFiles and the cache-file version gate are identities / refusals as required; find() on real trees equals the reference semantics; push_path records scripts in start order; (bounded, real driver + GNU make) on a generated project with two find_files calls, a submodule and an options file, 12 single edits and 10 edit pairs (all ordered pairs in the thorough tier) each followed by the generated regeneration rule leave Makefile, .bfg_find_deps (as a set), .bfg_find_cache and compile_commands.json identical to a fresh configure, and a second make regenerates nothing; (bounded, real GNU make) the depfile written by find.write_depfile makes the output depend on exactly the searched directories, for directory names with Make-special characters, and survives deletion of a directory',
     'assumptions': ['json.dumps/loads round-trips lists, dicts, strings, booleans and None'],
@@ -249,14 +249,14 @@ TABLE['C13'] = {
 
 TABLE['C18'] = {
     'modules': ['contracts.distarchive', 'contracts.regencheck'],
-    'level': 'exploration',
-    'explanation': 'a universal statement over all builtins plus the behaviour of the external archive tool: no per-function contract carries it, nothing is proved. The check is a bounded runtime contract on the real pipeline: one generated project that creates file objects through find_files (with extra=), header_directory (with a pattern), static_library, executable, header_file, man_page, generic_file, copy_file, build_step and command inputs, a submodule with its own options file, extra_dist and a dist=False source is configured by the tree under test; the dist-gzip, dist-bzip2 and dist-zip targets are run by GNU make with the real doppel; the archive members must be exactly the files the description reads, and the unpacked archive must configure and build the distributed targets.',
+    'level': 'other',
+    'explanation': '(proof: find_from_filter under contract -- whether a find_files() result comes from the find cache or from a fresh search, cached or not, every found path becomes an object of the requested type and every extra path is registered, all with the dist flag of the caller.) Beyond that kernel: a universal statement over all builtins plus the behaviour of the external archive tool: no per-function contract carries it, nothing else is proved. The rest of the check is a bounded runtime contract on the real pipeline: one generated project that creates file objects through find_files (with extra=), header_directory (with a pattern), static_library, executable, header_file, man_page, generic_file, copy_file, build_step and command inputs, a submodule with its own options file, extra_dist and a dist=False source is configured by the tree under test; the dist-gzip, dist-bzip2 and dist-zip targets are run by GNU make with the real doppel; the archive members must be exactly the files the description reads, and the unpacked archive must configure and build the distributed targets.',
     'assumptions': ['the installed doppel 0.5.0 is the archive tool a user runs'],
-    'trusted_base': [],
+    'trusted_base': ['PyVC (pyvc/*.py)', 'z3 5.1.0'],
     'not_covered': ['builtins not used by the generated project (packages, pkg-config, generated sources, precompiled headers)', 'files below an extra_dist directory deeper than one level (accepted either way: no influence on the build, not settled by the property text)', 'the ninja backend'],
-    'level_text': 'Bounded exploration only (labelled): one generated project, three archive formats. Nothing is proved for this property.',
+    'level_text': 'Partial: one deductive kernel (find_from_filter registers found and extra files with the dist flag in every branch) plus a bounded run (labelled): one generated project, three archive formats.',
     'level_note': 'bounded stand-in only; the contract technique does not apply (DESIGN.md section 6 and 8.3).',
-    'technique': 'bounded runtime contracts on the real pipeline and archive tool (stand-in; no deductive obligations)',
+    'technique': 'contract-based proof of find_from_filter (PyVC + z3) and bounded runtime contracts on the real pipeline and archive tool (stand-in, not counted as proved)',
 }
 
 
